@@ -32,9 +32,24 @@ var stdTypes []string
 
 var embedType = py.NewType("EType", "a type registered through the embedding API by the verification harness")
 
+// depths of the HoldDeep / Recurse operations (from the specification's Meta record)
+var holdDepth, recDepth = 900, 300
+
 func init() {
 	py.RegisterModule(&py.ModuleImpl{Info: py.ModuleInfo{Name: "gpvembed", Doc: "module registered by the verification harness"},
-		Globals: py.StringDict{"EType": embedType}})
+		Globals: py.StringDict{"EType": embedType},
+		Methods: []*py.Method{
+			// hold(): called by HoldDeep at the bottom of its recursion; under the replay scheduler the context's
+			// goroutine parks here (all its frames stay active) until its second step is released
+			py.MustNewMethod("hold", func(self py.Object) (py.Object, error) {
+				if m, ok := self.(*py.Module); ok {
+					if x, ok := gated.Load(m.Context); ok {
+						x.(*cx).yield()
+					}
+				}
+				return py.None, nil
+			}, 0, "hold()"),
+		}})
 }
 
 // liveStdTypes: every type defined in Go that a registered module (named like the directories of stdlib/)
@@ -139,6 +154,10 @@ func render(o OpT, val string, n int) string {
 		return fmt.Sprintf("import os\nprint(os.environ['GPV%d'])\n", n)
 	case "ReplLine":
 		return fmt.Sprintf("'%s'", val)
+	case "HoldDeep": // gpvembed.hold() parks the context's goroutine HoldDepth frames deep until the scheduler lets it go
+		return fmt.Sprintf("import gpvembed\ndef _down%d(k):\n    if k == 0:\n        gpvembed.hold()\n        return 0\n    return _down%d(k - 1) + 1\nprint(_down%d(%d))\n", n, n, n, holdDepth)
+	case "Recurse":
+		return fmt.Sprintf("def _rec%d(k):\n    if k == 0:\n        return 0\n    return _rec%d(k - 1) + 1\nprint(_rec%d(%d))\n", n, n, n, recDepth)
 	}
 	panic("no template for operation " + o.Op)
 }
@@ -295,6 +314,9 @@ func (c *cx) runOp(i int) {
 		rerr error
 		pnc  string
 	)
+	if o.Op == "HoldDeep" && !c.free {
+		atomic.StoreInt32(&c.wantPark, 1)
+	}
 	func() {
 		defer func() {
 			if e := recover(); e != nil {
@@ -308,6 +330,11 @@ func (c *cx) runOp(i int) {
 		}
 		_, rerr = c.pc.Ctx.RunCode(code, c.rp.Module.Globals, c.rp.Module.Globals, nil)
 	}()
+	if o.Op == "HoldDeep" && !c.free && atomic.CompareAndSwapInt32(&c.wantPark, 1, 0) {
+		// the recursion never reached hold(): the two steps collapse
+		c.ack <- struct{}{}
+		<-c.adv
+	}
 	var segs []string
 	std, own := c.pc.Out.String(), c.own.String()
 	c.pc.Out.Reset()
